@@ -90,6 +90,44 @@ def dtype_clause(r, label, what, t, want, det):
     return True
 
 
+def construction_default_clause(r, label, cfg, m64, x, ctx, det, me):
+    """The float64 twin (built while the default dtype was float32, then .double()) against the same configuration BUILT while the
+    default dtype is float64 and given the twin's values through load_state_dict: constants that a constructor derives from its
+    arguments in the default dtype and keeps outside the state dict (log of a slope, of a temperature ...) carry single precision
+    into every double-precision evaluation of the first model."""
+    if me is not None and ("umnn" in me["tags"] or m64.training):
+        return
+    try:
+        torch.set_default_dtype(torch.float64)
+        mc = zoo.build(cfg)
+        mc.load_state_dict(m64.state_dict())
+        mc.eval()
+        with torch.no_grad():
+            oc, lc = mc(x.double(), ctx.double() if ctx is not None else None)
+    except Exception:
+        r.count("construction_default_twin_raised")
+        return
+    finally:
+        torch.set_default_dtype(torch.float32)
+    try:
+        with torch.no_grad():
+            o64, l64 = m64(x.double(), ctx.double() if ctx is not None else None)
+    except Exception:
+        return
+    if o64.shape != oc.shape:
+        return
+    ok = torch.isfinite(o64) & torch.isfinite(oc)
+    okl = torch.isfinite(l64) & torch.isfinite(lc)
+    r.ev()
+    r.count("construction_default_checks")
+    dd = float((o64 - oc).abs()[ok].max()) if ok.any() else 0.0
+    ddl = float((l64 - lc).abs()[okl].max()) if okl.any() else 0.0
+    r.worst("construction_default_dependence/1e-9", max(dd, ddl) / 1e-9)
+    if max(dd, ddl) > 1e-9 * (1 + (float(oc.abs()[ok].max()) if ok.any() else 0.0) + (float(lc.abs()[okl].max()) if okl.any() else 0.0)):
+        r.viol("default_dtype_dependence", "%s.forward: double-precision results depend on the default dtype at construction time (a "
+               "constant derived from the arguments is kept in single precision)" % label, out_diff=dd, lad_diff=ddl, **det)
+
+
 def compare_items(r, label, direction, m32, m64, x, ctx, det, me=None):
     """Returns True if everything agreed."""
     B = x.shape[0]
@@ -369,6 +407,7 @@ def run_case(case):
     st = compare_items(r, label, "forward", model, m64, x, ctx, det, me)
     if st == "differs":
         r.cell(label, "forward", case["policy"], "img" if len(me["shape"]) == 3 else "2d")
+    construction_default_clause(r, label, cfg, m64, x, ctx, det, me)
     if st is not False:
         try:
             with torch.no_grad():
